@@ -3,7 +3,7 @@ CONSTANTS QEmptyDel = FALSE
           QEager = FALSE
           QReplayRange = FALSE
           Keys <- KeysA
-          Vals <- ValsB
+          Vals <- ValsA
           IterPrefixes <- PrefA
           MaxBatch = 2
           BatchBounds <- BoundsS
